@@ -375,7 +375,7 @@ for w in ("h3", "h4"):
     # thorough only: on the unchanged tree this harness SUCCEEDS in most builds but in some builds of identical sources
     # (Kani emits std's UB precondition checks in one build and not in the other) CBMC reports realloc/pointer
     # failures that do not reproduce natively -> inconclusive; not stable enough for the quick tier (DESIGN §6)
-    H("k02e_stored_mirror_" + w, "token_predictor", ["C02", "C08"], tier="experimental", unwind=8, unwindset=dict(TOKEN_UW, stored_mirror=8, same_dictionary_updates=18, update_hash=8, predict_block=8, recreate_block=8), timeout=1800, mem_gb=16,
+    H("k02e_stored_mirror_" + w, "token_predictor", ["C02", "C08"], tier="quick", unwind=8, unwindset=dict(TOKEN_UW, stored_mirror=8, same_dictionary_updates=18, update_hash=8, predict_block=8, recreate_block=8), timeout=1800, mem_gb=16,
       claim="stored block: recreate_block(predict_block(b)) == b, and both sides insert exactly the same positions into the dictionary (every add policy)",
       functions=["TokenPredictor::predict_block / recreate_block (stored arm)", "HashChainHolderImpl::update_hash", "DictionaryAddPolicy::update_hash"],
       bounds="stored blocks of 1..=6 bytes, every parameter vector in estimator_range (all 5 add policies)", assumptions=MODEL_ASSUME[:2] + ["recording codec Rec"])
@@ -407,12 +407,17 @@ for nm in ("lit_lazy_h3", "ref_lazy_h3", "lit_greedy_h3", "ref_greedy_h3"):
 
 CONTRACT_ASSUME = ["the matcher behind Box<dyn HashChainHolder> is a contract object at the trait seam: every query gets an arbitrary answer allowed by the matcher's contract (Success inside the text: k05e_match_total_*; hop_match inverts calculate_hops, hop counts >= 1, injective: k02d_hops_inverse_*), the same query in the same dictionary state gets the same answer on both sides; update_hash runs the real DictionaryAddPolicy and logs the inserted positions",
                    "recording codec Rec", "Vec::push replaced by an equivalent that case-splits on the length (stub_vec_push_any)", "at most 8 distinct matcher queries and 4 hop queries per harness (assumed)", "max_token_count = 127 (concrete)", "Vec::reserve with a concrete allocation size for requests <= 16 elements (stub_vec_reserve_concrete)"]
-for nm, bnd in (("0", "cursor at 2 of a 6-byte text, empty block"), ("1", "cursor at 2 of a 6-byte text, blocks of exactly 1 token"), ("2", "cursor at 1 of a 6-byte text, blocks of exactly 2 tokens"), ("stored", "cursor at 1 of a 6-byte text, stored blocks of 0, 1 and 4 bytes, any padding bits")):
-    H("k02m_contract_mirror_" + nm, "token_predictor", ["C02", "C08", "C05"], tier="experimental", unwind=6, unwindset={"contract_mirror": 8, "query": 10, "calculate_hops": 6, "hop_match": 6, "update_hash": 8, "valid_reference": 14, "same_dictionary_updates": 18, "predict_block": 6, "recreate_block": 7, "try_from_fn_erased": 16}, timeout=3600, mem_gb=30,
+for nm, bnd, uw in (("0", "cursor at 2 of a 6-byte text, empty block", 2), ("1", "cursor at 2 of a 6-byte text, blocks of exactly 1 token", 3), ("2", "cursor at 1 of a 6-byte text, blocks of exactly 2 tokens", 4), ("stored", "cursor at 1 of a 6-byte text, stored blocks of 0, 1 and 4 bytes, any padding bits", 6)):
+    H("k02m_contract_mirror_" + nm, "token_predictor", ["C02", "C08", "C05"], tier=("quick" if nm in ("0", "stored", "1") else "thorough"), unwind=6, unwindset={"contract_mirror": 8, "query": 10, "calculate_hops": 6, "hop_match": 6, "update_hash": 8, "valid_reference": 14, "same_dictionary_updates": 18, "predict_block": uw, "recreate_block": uw, "try_from_fn_erased": 16}, timeout=3600, mem_gb=30,
       claim="inductive step of the block/token mirror over the REAL predict_block / recreate_block / predict_token / repredict_reference / commit_token: from any common pre-state (cursor, pending lazy match, token counter) recreate_block rebuilds the block from what predict_block recorded, consumes the corrections exactly, and both sides leave the block in the same state and made identical dictionary insertions",
       functions=["TokenPredictor::predict_block", "TokenPredictor::recreate_block", "TokenPredictor::predict_token", "TokenPredictor::repredict_reference", "TokenPredictor::commit_token", "DictionaryAddPolicy::update_hash"],
       bounds=bnd + "; text bytes, token kinds, lengths, distances, irregular-258 flag, parameters (estimator_range), block type and last-block flag symbolic", outside="longer blocks are covered only through this step (induction argued, not solver-checked)", assumptions=CONTRACT_ASSUME)
 
+for n, tier, uw in ((1, "quick", 3), (2, "quick", 4), (3, "quick", 5)):
+    K4("k04m_predict_equiv_%d" % n, "token_predictor", "predict_block emits the same correction sequence as the reference build (token walk, lazy rule, length / distance / hop corrections, irregular-258 flag, TokenCount signalling) when the matcher is replaced on both sides by the same pure function of the query",
+       ["TokenPredictor::predict_block", "TokenPredictor::predict_token", "TokenPredictor::repredict_reference", "TokenPredictor::commit_token"],
+       "6-byte text, cursor at 1, blocks of exactly %d token(s); text, token kinds/lengths/distances, parameters (estimator_range), block type, last flag and the matcher's answer tables symbolic" % n,
+       tier=tier, unwind=6, unwindset={"predict_equiv": 26, "predict_ops_contract": 4, "predict_block": uw, "valid_reference": 14, "try_from_fn_erased": 16}, timeout=3600, mem_gb=30)
 # ---------------------------------------------------------------- thorough-tier deepenings (same lemmas, larger bounds)
 H("k01e_idat_more_layouts", "idat_parse", ["C01", "C05", "C06"], tier="thorough", unwind=6, unwindset=IDAT_UW, timeout=2400, mem_gb=24,
   claim="parse_idat totality / postconditions / acceptance on further layouts", functions=IDAT_FUNCS[:1], bounds="layouts (12), (3,4)+5 trailing, (5,1), (2,2)+9 trailing; content symbolic", assumptions=IDAT_ASSUME)
@@ -490,15 +495,15 @@ PROPS = {
     "C01": dict(design_ref="§2 C01", technique=_T + ": the real scanner loop over contract stubs of its callees (cursor arithmetic, tiling, inductive step), the contracts themselves (next_signature, header parsers, parse_idat on concrete chunk layouts), varint / chunk-framing / IDAT-descriptor round trips",
                 level_text="Every lemma the container round trip decomposes into is decided by the SAT solver for all inputs inside the stated byte bounds; composition across lemmas is by argument (DESIGN §C01).",
                 level_note="Bounds per harness in evidence. Outside: the composition of the lemmas (argued in DESIGN), IDAT runs of more than one chunk inside the scanner harness, IDAT parse->recreate identity with the real CRC (experimental). Trusted: Kani/CBMC, contract stubs (each discharged by a named harness), crc32fast shim / cheap checksum flag."),
-    "C02": dict(design_ref="§2 C02", technique=_T + ": mirror-pair lemmas (parameter header over estimator_range, run-length tree mirror, hops inverse and matcher totality over a model chain, writer token coding)",
+    "C02": dict(design_ref="§2 C02", technique=_T + ": mirror-pair lemmas (parameter header over estimator_range, run-length tree mirror, hops inverse and matcher totality over a model chain, the real predict_block/recreate_block as an inductive step over a contract matcher at the HashChainHolder trait seam, stored-block mirror, writer token coding vs an RFC reference decoder)",
                 level_text="Each encoder/decoder mirror pair is decided for all inputs inside its bound with the arithmetic coder replaced by a transparent recording codec.",
-                level_note="Model hash chain at the HashChain trait seam (real hash tables are out of reach). Outside: the token-level predict_block/recreate_block mirror (harness exists, out of memory at every size), block-structure mirror (thorough), dynamic-block Huffman prediction, table-based estimators."),
+                level_note="Model hash chain at the HashChain trait seam and a contract object at the HashChainHolder trait seam (real hash tables are out of reach); each contract is discharged by a named harness. Outside: blocks of more than 2 tokens other than through the inductive step (induction argued, not solver-checked), dynamic-block Huffman prediction beyond the run-length mirror, table-based estimators."),
     "C03": dict(design_ref="§2 C03", technique=_T + ": differential harness against an RFC 1951 reference decoder written in the harness",
                 level_text="Tables, fixed code, stored blocks, window copy and the top length/distance codes of the real reader equal an independent RFC-1951 reading typed into the harness.",
                 level_note="Oracle is the in-harness RFC 1951 reference (not zlib itself, which is C). Outside: dynamic block data through the reader; window distances between 65 and 32765; in the quick tier only the top length/distance codes of the reader (all codes in the thorough tier)."),
     "C04": dict(design_ref="§2 C04", technique=_T + ": bounded equivalence of format-defining kernels, current tree vs frozen reference crate",
                 level_text="For each format-defining kernel the solver shows current(x) == reference(x) for all x in the bound; an announced version bump passes.",
-                level_note="Kernel list in evidence; code outside the list (table-level chain code, estimators) is not covered."),
+                level_note="Kernel list in evidence (incl. the predict_block correction sequence over a contract matcher); code outside the list (walk order inside the real matcher, table-level chain code, estimators) is not covered."),
     "C05": dict(design_ref="§2 C05", technique=_T + ": Kani panic/overflow/bounds/unwinding checks on scanner loop, parsers, tree predictor, matcher, container, chain position arithmetic",
                 level_text="No panic, overflow, out-of-bounds or unbounded loop for any input inside the bounds, for the harnessed functions.",
                 level_note="Estimators and the real hash-table walk are outside; dev-profile semantics."),
